@@ -245,6 +245,31 @@ func cmpBound(cond ssa.Value, outcome bool) (ssa.Value, int64, bool) {
 	return nil, 0, false
 }
 
+// cmpExcl: on the given outcome of cond, a value that len(x) is known to differ from.
+func cmpExcl(cond ssa.Value, outcome bool) (ssa.Value, int64, bool) {
+	if u, ok := cond.(*ssa.UnOp); ok && u.Op == token.NOT {
+		return cmpExcl(u.X, !outcome)
+	}
+	b, ok := cond.(*ssa.BinOp)
+	if !ok || (b.Op != token.EQL && b.Op != token.NEQ) {
+		return nil, 0, false
+	}
+	if (b.Op == token.NEQ) != outcome {
+		return nil, 0, false // the equality holds: handled as a bound
+	}
+	if x, c, ok := lenMinus(b.X); ok {
+		if k, isC := constIntVal(b.Y); isC {
+			return x, k + c, true
+		}
+	}
+	if x, c, ok := lenMinus(b.Y); ok {
+		if k, isC := constIntVal(b.X); isC {
+			return x, k + c, true
+		}
+	}
+	return nil, 0, false
+}
+
 // madeLen: a lower bound of len(v) from the way v was made.
 func madeLen(v ssa.Value, depth int) int64 {
 	if depth > 6 {
@@ -394,8 +419,10 @@ func (bc *boundsCtx) prove(s *idxSite, at ssa.Instruction) {
 			}
 		}
 	}
-	// dominating comparisons
+	// dominating comparisons: the best lower bound, raised past every value the length is known to differ from
 	ub := at.Block()
+	best := int64(0)
+	excl := map[int64]bool{}
 	for b := ub.Idom(); b != nil; b = b.Idom() {
 		iff, ok := b.Instrs[len(b.Instrs)-1].(*ssa.If)
 		if !ok {
@@ -414,20 +441,33 @@ func (bc *boundsCtx) prove(s *idxSite, at ssa.Instruction) {
 			if !entryOK {
 				continue
 			}
-			x, lb, ok := cmpBound(iff.Cond, si == 0)
-			if !ok || lb < s.need || !bc.sameSeq(x, s.x) {
-				continue
-			}
-			if x != s.x {
-				// two loads of one location: nothing may be stored to it in between
-				if bc.storeBetween(b, succ, at, s.x.(*ssa.UnOp).X) {
-					continue
+			usable := func(x ssa.Value) bool {
+				if !bc.sameSeq(x, s.x) {
+					return false
 				}
+				if x != s.x {
+					// two loads of one location: nothing may be stored to it in between
+					if bc.storeBetween(b, succ, at, s.x.(*ssa.UnOp).X) {
+						return false
+					}
+				}
+				return true
 			}
-			s.ok, s.byCmp = true, true
-			s.why = fmt.Sprintf("under a dominating test that len ≥ %d", lb)
-			return
+			if x, lb, ok := cmpBound(iff.Cond, si == 0); ok && usable(x) && lb > best {
+				best = lb
+			}
+			if x, k, ok := cmpExcl(iff.Cond, si == 0); ok && usable(x) {
+				excl[k] = true
+			}
 		}
+	}
+	for excl[best] {
+		best++
+	}
+	if best >= s.need {
+		s.ok, s.byCmp = true, true
+		s.why = fmt.Sprintf("under dominating tests that len ≥ %d", best)
+		return
 	}
 	s.why = fmt.Sprintf("no dominating test or construction shows len ≥ %d", s.need)
 }
